@@ -1,4 +1,5 @@
 import DrummerVerif.Lemmas.C11
+import DrummerVerif.Lemmas.C11S
 import DrummerVerif.Bridge.Bridge
 /-!
 # C11 — only stray replicas are killed, and kill requests stop once they are gone
@@ -34,6 +35,26 @@ theorem kill_list_after_report :
 theorem code_kill_guard :
     ∀ (c : Shard) (ci : ShardInfo), Gen.kill_version_guard c ci = decide (c.cci ≤ ci.cci) :=
   @_root_.Drummer.bridge_killGuard
+
+theorem kill_requests_exactly_the_recorded_strays :
+    ∀ (cx : Ctx) (draws rest : List Nat) (rs : List Request),
+      (∀ (cr : ShardRepair), cr ∈ cx.repairs → ∀ (x : Replica), x ∈ cr.failed → x.shardId = cr.shard.shardId) →
+        maintain cx draws = SRes.ok rs rest →
+          (∀ (k : KillEntry), k ∈ cx.toKill → killReq k ∈ rs) ∧
+            (∀ (r : Request), r ∈ rs → r.type = ReqType.kill → ∃ k, k ∈ cx.toKill ∧ r = killReq k) ∧
+              List.filter (fun x => x.type == ReqType.kill) rs = List.map killReq cx.toKill :=
+  @_root_.Drummer.maintain_kills_exact
+
+theorem entry_flagged_iff_stray :
+    ∀ (t : Nat) (mc mc' : MultiShard) (ci : ShardInfo) (k : Bool),
+      doUpdate1 t mc ci = Outcome.ok (mc', k) →
+        (k = true ↔
+          ∃ ec,
+            MultiShard.find? mc ci.shardId = some ec ∧
+              ec.cci > ci.cci ∧
+                (∀ (r : Replica), r ∈ ec.replicas → r.replicaId ≠ ci.replicaId) ∧
+                  ((ci.pending || ci.incomplete) = true → List.length ec.replicas > 0 ∧ ec.cci > 0)) :=
+  @_root_.Drummer.doUpdate1_flag_iff
 
 end C11
 end Drummer
